@@ -277,7 +277,7 @@ def run_case(case):
         res["shape"] = None
     cls = Norm if case["cls"] == "Norm" else SemiNorm
     try:
-        n = cls(arg, D, kind=case["kind"])
+        n = cls(arg, D, kind=case.get("kind_spelling", case["kind"]))     # 'H1', 'L2', ... : the kind is case-insensitive
     except Exception as e:  # noqa
         res["phys"] = err_of(e)
         res["construct_failed"] = True
